@@ -141,9 +141,14 @@ def lake_build(targets: list[str]):
     return rc == 0, out
 
 
-def theorem_names(prop: str) -> list[str]:
+def src_props_path(prop: str) -> str:
+    """bridge theorems of the source tie (DESIGN §11.1), if the property has translated sites"""
+    return os.path.join(LEAN_DIR, 'OutrankModel', 'Props', 'Src', f'{prop}.lean')
+
+
+def theorem_names(prop: str, path: str | None = None) -> list[str]:
     """theorems declared in Props/<prop>.lean (obligations are counted from the file, not a constant)"""
-    path = os.path.join(LEAN_DIR, 'OutrankModel', 'Props', f'{prop}.lean')
+    path = path or os.path.join(LEAN_DIR, 'OutrankModel', 'Props', f'{prop}.lean')
     names = []
     ns = []
     for ln in open(path, encoding='utf-8'):
@@ -194,14 +199,18 @@ def grep_forbidden() -> list[str]:
     return hits
 
 
-def audit(prop: str):
-    """#print axioms for every theorem of Props/<prop>.lean; returns (per-theorem dict, raw output)"""
+def audit(prop: str, with_src: bool = False):
+    """#print axioms for every theorem of Props/<prop>.lean (and Props/Src/<prop>.lean); returns (per-theorem dict, raw output)"""
     names = theorem_names(prop)
+    if with_src:
+        names = names + theorem_names(prop, src_props_path(prop))
     d = os.path.join(LEAN_DIR, '.audit')
     os.makedirs(d, exist_ok=True)
     f = os.path.join(d, f'Audit_{prop}.lean')
     with open(f, 'w') as fh:
         fh.write(f'import OutrankModel.Props.{prop}\n')
+        if with_src:
+            fh.write(f'import OutrankModel.Props.Src.{prop}\n')
         for n in names:
             fh.write(f'#print axioms {n}\n')
     rc, out = sh(['lake', 'env', 'lean', f], cwd=LEAN_DIR)
@@ -327,7 +336,9 @@ def finish(ctx: Ctx, build_info: dict, assumptions: list[str], rule: str, search
             first = ctx.corr_failures[0] if ctx.corr_failures else None
             f = Failure('tie-broken:' + broken[0],
                         'model and code no longer agree / proof obligation no longer checks: ' + '; '.join(broken[:5]),
-                        first.case if first else {'broken': broken}, 'tie')
+                        {'broken': broken, 'first_differing_case': first.case if first else None,
+                         'source_tie': ctx.extra.get('source_tie', {}).get('problems'),
+                         'bridge_failures': ctx.extra.get('source_tie', {}).get('bridge_failures')}, 'tie')
             if first:
                 f.desc += ' | first differing case: ' + first.desc
             report(f, ' no-failing-input-found')
@@ -379,6 +390,30 @@ TRUSTED_BASE = [
 ]
 
 
+def failing_theorems(prop: str, build_out: str) -> list[str]:
+    """map `error:` positions of a failed build of Props/Src/<prop>.lean to the theorems they fall into"""
+    path = src_props_path(prop)
+    starts = []
+    ns = []
+    for i, ln in enumerate(open(path, encoding='utf-8'), 1):
+        m = re.match(r'\s*namespace\s+(\S+)', ln)
+        if m:
+            ns.append(m.group(1))
+        m = re.match(r'\s*(?:@\[[^\]]*\]\s*)?(?:private\s+|protected\s+)?(theorem|example)\s*(\S*)', ln)
+        if m:
+            starts.append((i, '.'.join(ns + [m.group(2)]) if m.group(1) == 'theorem' else f'example@{i}'))
+    out = []
+    for m in re.finditer(r'Props/Src/' + prop + r'\.lean:(\d+):\d+: error', build_out):
+        line = int(m.group(1))
+        name = None
+        for st, n in starts:
+            if st <= line:
+                name = n
+        if name and name not in out:
+            out.append(name)
+    return out or ['(build of Props/Src/%s.lean failed)' % prop]
+
+
 def own_modules(root: str) -> list[str]:
     """the project's own modules (OutrankModel.*) transitively imported by `root` – what leanchecker re-checks"""
     seen, todo = [], [root]
@@ -410,13 +445,29 @@ def prepare(prop: str, tier: str, extra_targets=()):
     hits = grep_forbidden()
     if hits:
         raise InfraError('forbidden construct in lean/: ' + '; '.join(hits[:5]))
-    thms, raw, rc = audit(prop)
+    # source tie: the bridge theorems are checked against the REGENERATED Gen/Src/<prop>.lean; a failure is an obligation
+    # failure (tie broken), not an infrastructure error
+    has_src = os.path.exists(src_props_path(prop))
+    info['src_ok'] = True
+    if has_src:
+        ok2, out2 = lake_build([f'OutrankModel.Props.Src.{prop}'])
+        info['checker_cmd'] = info['checker_cmd'].replace(' outrank_driver', f' OutrankModel.Props.Src.{prop} outrank_driver', 1)
+        if not ok2:
+            info['src_ok'] = False
+            info['src_build_out'] = out2[-4000:]
+            info['src_failed'] = failing_theorems(prop, out2)
+    thms, raw, rc = audit(prop, with_src=has_src and info['src_ok'])
+    if has_src and not info['src_ok']:
+        for n in theorem_names(prop, src_props_path(prop)):
+            thms[n] = None                       # obligation not discharged
     info['theorems'] = thms
-    bad = [n for n, ax in thms.items() if ax is None or not set(ax) <= ALLOWED_AXIOMS]
+    bad = [n for n, ax in thms.items() if (ax is None and (info['src_ok'] or not n.startswith('Src.'))) or (ax is not None and not set(ax) <= ALLOWED_AXIOMS)]
     if bad:
         raise InfraError(f'axiom audit failed for {bad}: {raw[-1500:]}')
     if tier == 'thorough':
         mods = own_modules(f'OutrankModel.Props.{prop}')
+        if has_src and info['src_ok']:
+            mods = sorted(set(mods) | set(own_modules(f'OutrankModel.Props.Src.{prop}')))
         info['leanchecker_modules'] = mods
         rc, o = sh(['lake', 'env', 'leanchecker'] + mods, cwd=LEAN_DIR, timeout=3600)
         info['leanchecker'] = 'ok' if rc == 0 else ('failed: ' + o[-500:])
